@@ -62,6 +62,7 @@ def run_compose(cfg: CCfg, c: Ctx) -> Any:
     feats: List[Any] = [None]
     if cfg.indexed:
         feats += [("idx", d, l) for l in labels for d in deps[l]]
+        feats += [("dbl", d, l) for l in labels for d in deps[l]]  # two parts of one dependency, both positional: n(v[0], v[1])
     if cfg.kwargs:
         feats += [("kw", l) for l in labels if deps[l]]
     if cfg.activation:
@@ -73,10 +74,11 @@ def run_compose(cfg: CCfg, c: Ctx) -> Any:
         feats = [f for f in feats if f and f[0] in ("act", "actidx")]
         c.assume(bool(feats))
     elif cfg.features == "kw":
-        feats = [f for f in feats if f and f[0] in ("kw", "idx")]
+        feats = [f for f in feats if f and f[0] in ("kw", "idx", "dbl")]
         c.assume(bool(feats))
     feat = feats[c.choose(len(feats), "feature")]
     idx_use: Optional[Tuple[str, str]] = (feat[1], feat[2]) if feat and feat[0] == "idx" else None
+    dbl_use: Optional[Tuple[str, str]] = (feat[1], feat[2]) if feat and feat[0] == "dbl" else None
     kw_use = {l: bool(feat and feat[0] == "kw" and feat[1] == l) for l in labels}
     act: Dict[str, str] = {feat[2]: feat[1]} if feat and feat[0] in ("act", "actidx") else {}
     act_indexed = bool(feat and feat[0] == "actidx")  # twz_active=flag[0]
@@ -121,6 +123,9 @@ def run_compose(cfg: CCfg, c: Ctx) -> Any:
             v = r[d]
             if idx_use == (d, l):
                 v = v[0]
+            if dbl_use == (d, l):
+                args.append(v[0])
+                v = v[1]
             args.append(v)
         kw: Dict[str, Any] = {}
         if kw_use[l]:
@@ -233,6 +238,15 @@ def run_compose(cfg: CCfg, c: Ctx) -> Any:
         expect_error = True
     data = {"deps": deps, "src": src, "idx": idx_use, "kw": kw_use, "act": act, "inputs": repr(inputs), "outputs": outputs, "form": form,
             "setup0": setup0, "flavour": flavour}
+    if id_clash and c.choose(2, "prior_compose_other_alias_form"):
+        # an earlier compose() on the same DAG named the first node by reference: the string form must still mean the tag
+        try:
+            d.compose("pre", ..., xns[labels[0]])
+        except SXControl:
+            raise
+        except Exception:  # noqa: BLE001  (what that composition does is not the subject)
+            pass
+        c.cover("w_prior_compose")
     cnt.reset()
     raised: Optional[BaseException] = None
     composed = None
